@@ -19,13 +19,36 @@ From OCI Require Import Proofs.UnifyConc.
    which the caller does not cancel before the member's answer has settled. *)
 Inductive shape := ShLeaf | ShRich | ShSeq (wrapped leaf_first : bool) | ShConc (leaf_first : bool).
 
-(* One call of one entry point: the two members' kinds and shapes, the schedule the harness
-   played (event, wait-for-quiet-and-observe), and the snapshots it recorded, one per waiting
-   event. *)
+(* What a member's failure looks like to errors.Is / errors.As.  The property speaks of success
+   and failure only: a failure is a failure whatever error value carries it, and nothing about
+   the error of one member says anything about the caller's context or about the other member.
+   FkPlain: an error that is nothing else.  FkCtxCanceled / FkCtxDeadline: the member's own
+   cancellation / deadline - an error that wraps context.Canceled / context.DeadlineExceeded
+   while the caller's context is live.  FkTimeout: a net.Error-like error (Timeout() = true)
+   wrapping os.ErrDeadlineExceeded.  FkOci...: an OCI error (the not-found code of the entry
+   point, NAME_UNKNOWN, DENIED, UNAUTHORIZED).  FkHttp503 / FkRange: an ociregistry.HTTPError
+   of status 503 / 416 (the latter answers Is(ErrRangeInvalid)).  FkEof: wraps
+   io.ErrUnexpectedEOF.  The same flavour is given to the errors of the member's reader (Close,
+   Read) when the setting makes those fail. *)
+Inductive failkind :=
+  FkPlain | FkCtxCanceled | FkCtxDeadline | FkTimeout
+| FkOciUnknown | FkOciNameUnknown | FkOciDenied | FkOciUnauthorized
+| FkHttp503 | FkRange | FkEof.
+
+(* How the caller's context ends at the ECancel event: its cancel function is called
+   (Err() = context.Canceled) or it runs out of time (Err() = context.DeadlineExceeded).  The
+   caller has given up either way; the error the call then returns is the context's. *)
+Inductive ctxend := EndCancel | EndDeadline.
+
+(* One call of one entry point: the two members' kinds, shapes and failure flavours, how the
+   caller's context ends, the schedule the harness played (event, wait-for-quiet-and-observe),
+   and the snapshots it recorded, one per waiting event. *)
 Record case := {
   c_entry : entry;
   c_k0 : kind; c_k1 : kind;
   c_sh0 : shape; c_sh1 : shape;
+  c_f0 : failkind; c_f1 : failkind;
+  c_end : ctxend;
   c_sched : list (ev * bool);
   c_snaps : list snapshot
 }.
@@ -54,7 +77,9 @@ Definition shape_fits (i : mem) (k : kind) (sh : shape) (l : list (ev * bool)) :
   end.
 
 (* Go's select may pick among ready cases, so the model yields a set of allowed observations:
-   agreement is membership.  The members' shapes do not enter the prediction. *)
+   agreement is membership.  Neither the members' shapes nor the flavours of their failures
+   nor the way the caller's context ends enter the prediction (nor the specification): a
+   failing member is a failing member, a caller that has given up has given up. *)
 Definition model_agrees (c : case) : bool :=
   shape_fits M0 (c_k0 c) (c_sh0 c) (c_sched c) && shape_fits M1 (c_k1 c) (c_sh1 c) (c_sched c)
   && existsb (list_eqb snapshot_eqb (c_snaps c)) (run run_fuel (c_sched c) [c_init c]).
